@@ -155,6 +155,10 @@ def check(run):
     run.check(len(fronts) == 1, 'R2k', 'accept-queue-read-front', A + '::check_accept_queue', caq.loc(), 'the connection handed out is not m_incoming_conns.front()', 'hands out front()')
     run.floor('R2k', 4)
 
+    run.clause('a reused socket object receives nothing addressed to its previous connection: the forwarder is detached and dropped on close and created fresh on open (shared with C12)')
+    import p12
+    p12.forwarder_rules(run, (T,))
+
     run.clause('close(ec) ends listening: the listen limit has a closed writer set and is reset on every path of acceptor::close(ec)')
     engines.r2_writer_table(run, A + '::m_queue_size_limit', {A + '::acceptor': 'constructed not listening', A + '::listen': 'starts listening', A + '::close': 'stops listening'},
                             required=[A + '::listen', A + '::close'])
